@@ -579,12 +579,40 @@ func c10R7(c *Ctx, info *effectsInfo) {
 			}
 			// written after init: every access must be protected
 			all := append(append([]effects.Access(nil), ws...), readers[gk]...)
+			if once, bad := onceGuarded(info, all); once != "" {
+				// lazily initialised under a sync.Once
+				for _, a := range all {
+					akey := fmt.Sprintf("%s@%s/%s", key, funcKey(a.Instr.Parent()), a.Desc)
+					if why, isBad := bad[a.Instr]; isBad {
+						r.Bad(ruleL, akey, c.Prog.Rel(a.Instr.Pos()), "access of "+name+" follows a completed "+once+".Do", why)
+					} else {
+						r.OK(ruleL, akey, c.Prog.Rel(a.Instr.Pos()), "access of "+name+" follows a completed "+once+".Do", "inside the function run by Do, or dominated by a call that completes Do", true)
+					}
+				}
+				if len(bad) == 0 {
+					r.OK(ruleI, key, c.Prog.Rel(g.Pos()), "no store after init, or all accesses under one mutex", fmt.Sprintf("initialised once: written only by the function literal run by %s.Do (no free variables); all %d accesses follow a completed Do", once, len(all)), true)
+				} else {
+					r.Bad(ruleI, key, c.Prog.Rel(ws[0].Instr.Pos()), "no store after init, or all accesses under one mutex", fmt.Sprintf("written by the function run by %s.Do, but %d accesses are not ordered after it", once, len(bad)))
+				}
+				continue
+			}
 			common := map[string]bool{}
 			first := true
 			okAll := true
 			unsync := 0
+			unsyncWrites := 0
+			for _, a := range all {
+				if a.Write && !isSyncAccess(a) {
+					unsyncWrites++
+				}
+			}
 			for _, a := range all {
 				if isSyncAccess(a) {
+					continue
+				}
+				if unsyncWrites == 0 {
+					// every write goes through an internally synchronised primitive (sync.Map.Store, atomic.Value.Store):
+					// what readers obtain from it was published with a happens-before edge and is not written afterwards
 					continue
 				}
 				unsync++
@@ -645,6 +673,116 @@ func c10R7(c *Ctx, info *effectsInfo) {
 }
 
 var _ = load.ModPath
+
+// onceGuarded: every unsynchronised write of the variable sits in a function literal (no free variables) run by Do of
+// one package-level sync.Once. Returns that Once and, per access outside those literals, why it is not ordered after a
+// completed Do (empty map: all are). An access is ordered when a call dominates it that is o.Do(…) itself or a function
+// every return of which is dominated by such a call (`func get() *T { once.Do(…); return v }`).
+func onceGuarded(info *effectsInfo, all []effects.Access) (string, map[ssa.Instruction]string) {
+	once := ""
+	lits := map[*ssa.Function]bool{}
+	nw := 0
+	for _, a := range all {
+		if !a.Write || isSyncAccess(a) {
+			continue
+		}
+		nw++
+		o := info.A.OnceInit[a.Instr.Parent()]
+		if o == "" || (once != "" && o != once) {
+			return "", nil
+		}
+		once = o
+		lits[a.Instr.Parent()] = true
+	}
+	if once == "" || nw == 0 {
+		return "", nil
+	}
+	isDo := func(ci ssa.CallInstruction) bool {
+		for _, av := range ci.Common().Args {
+			switch x := av.(type) {
+			case *ssa.Function:
+				if effects.OnceLiteral(ci, x) == once {
+					return true
+				}
+			case *ssa.MakeClosure:
+				if f, ok := x.Fn.(*ssa.Function); ok && effects.OnceLiteral(ci, f) == once {
+					return true
+				}
+			}
+		}
+		return false
+	}
+	// functions that complete Do before every return
+	est := map[*ssa.Function]bool{}
+	establishes := func(ci ssa.CallInstruction) bool {
+		if isDo(ci) {
+			return true
+		}
+		sc := ci.Common().StaticCallee()
+		return sc != nil && est[sc]
+	}
+	for changed := true; changed; {
+		changed = false
+		for _, f := range info.Funcs {
+			if est[f] || f.Blocks == nil {
+				continue
+			}
+			for _, b := range f.Blocks {
+				for _, ins := range b.Instrs {
+					ci, ok := ins.(ssa.CallInstruction)
+					if !ok || !establishes(ci) {
+						continue
+					}
+					if _, isDefer := ins.(*ssa.Defer); isDefer {
+						continue
+					}
+					all := true
+					for _, rb := range f.Blocks {
+						if _, isRet := rb.Instrs[len(rb.Instrs)-1].(*ssa.Return); isRet && !b.Dominates(rb) {
+							all = false
+						}
+					}
+					if all {
+						est[f] = true
+						changed = true
+					}
+				}
+			}
+		}
+	}
+	bad := map[ssa.Instruction]string{}
+	for _, a := range all {
+		f := a.Instr.Parent()
+		if lits[f] || isSyncAccess(a) {
+			continue
+		}
+		ordered := false
+		for _, b := range f.Blocks {
+			for i, ins := range b.Instrs {
+				ci, ok := ins.(ssa.CallInstruction)
+				if !ok || !establishes(ci) {
+					continue
+				}
+				if _, isDefer := ins.(*ssa.Defer); isDefer {
+					continue
+				}
+				if b == a.Instr.Block() {
+					for j, x := range b.Instrs {
+						if x == a.Instr && j > i {
+							ordered = true
+						}
+					}
+				} else if b.Dominates(a.Instr.Block()) {
+					ordered = true
+				}
+			}
+		}
+		if !ordered {
+			bad[a.Instr] = "no call that completes " + once + ".Do dominates this access"
+		}
+	}
+	return once, bad
+}
 
 // freshBandObligations: every constructor of package band (a function returning the Band interface) returns memory
 // that is fresh per call and reaches no package-level variable.
